@@ -35,7 +35,7 @@ ENVS = [
 WHENS = ["2024-08-21T00:00:00Z", "2024-08-21T00:00:00", "2024-03-10T02:30:00", "2024-08-21 00:00:00", "2024-08-21", "2024-08-21T00:00:00+09:00",
          "2024-08-21T00:00:00.5-07:00", "Wed, 21 Aug 2024 00:00:00 GMT", "1724198400", "2024-11-03T01:30:00", "20240821T000000", "2024-08-21T00:00:00 PST"]
 
-STRUCTURED = {"pt-json-ofile", "pt-yaml-ofile", "rulegen-ofile", "fn-epoch-s-json", "fn-misc-s-yaml", "v-s-json", "v-s-yaml", "v-s-sarif", "v-s-junit", "v-printjson", "pt-json", "pt-yaml", "t-json", "t-yaml", "t-junit"}
+STRUCTURED = {"t-err-expectations-json", "pt-json-ofile", "pt-yaml-ofile", "rulegen-ofile", "fn-epoch-s-json", "fn-misc-s-yaml", "v-s-json", "v-s-yaml", "v-s-sarif", "v-s-junit", "v-printjson", "pt-json", "pt-yaml", "t-json", "t-yaml", "t-junit"}
 TIME_RE = re.compile(rb'(time="[^"]*"|"time":\s*\d+|\btime:\s*\d+)')
 ANSI = re.compile(rb"\x1b\[[0-9;]*m")
 
@@ -100,6 +100,8 @@ def modes_for(sdir):
         # runs that end in an evaluation error: the message (stderr) names the rules of the file
         "v-err-unknown-rule": ["validate", "-r", os.path.join(sdir, "e1.guard")] + D,
         "v-err-unknown-call": ["validate", "-r", os.path.join(sdir, "e2.guard")] + D + ["--structured", "-S", "none", "-o", "json"],
+        "t-err-expectations-json": ["test", "-r", os.path.join(sdir, "tbad", "r1.guard"), "-t", os.path.join(sdir, "tbad", "bad_tests.json"), "-o", "json"],
+        "t-err-expectations-console": ["test", "-r", os.path.join(sdir, "tbad", "r1.guard"), "-t", os.path.join(sdir, "tbad", "bad_tests.json")],
         "rulegen": ["rulegen", "-t", os.path.join(sdir, "rg.json")],
         "v-tf-console": ["validate", "-r", os.path.join(sdir, "tf.guard"), "-d", os.path.join(sdir, "tf")],
         "v-tf-console-all": ["validate", "-r", os.path.join(sdir, "tf.guard"), "-d", os.path.join(sdir, "tf"), "-S", "all", "-v"],
@@ -190,6 +192,12 @@ def build_inputs(rng, sdir):
         specs.append({"name": "case%d" % i, "input": d,
                       "expectations": {"rules": {n: rng.choice(["PASS", "FAIL", "SKIP"]) for n in names1 if not n.endswith("pr0")}}})
     open(os.path.join(sdir, "t", "tests", "r1_tests.json"), "w").write(json.dumps(specs))
+    # a tests file whose expectations are all misspelt, each differently: whichever the command reports, it must be the same one every time
+    os.makedirs(os.path.join(sdir, "tbad"), exist_ok=True)
+    shutil.copy(os.path.join(sdir, "r1.guard"), os.path.join(sdir, "tbad", "r1.guard"))
+    wrong = ["PASSED", "FAILED", "pass", "Skip", "OK", "failing", "NONE"]
+    bad_specs = [{"name": "bad%d" % i, "input": docs[0], "expectations": {"rules": {n: wrong[(k + i) % len(wrong)] for k, n in enumerate(names1)}}} for i in range(2)]
+    open(os.path.join(sdir, "tbad", "bad_tests.json"), "w").write(json.dumps(bad_specs))
     return texts, docs
 
 
@@ -252,7 +260,7 @@ def shard(ctx):
                 else:
                     outs = {norm_console(r[1]) for r in runs}
                     what = "stdout-lines"
-                nonempty = any(len(r[1]) > 0 or (mode.startswith("v-err") and len(r[2]) > 0) for r in runs)
+                nonempty = any(len(r[1]) > 0 or ((mode.startswith("v-err") or mode.startswith("t-err")) and len(r[2]) > 0) for r in runs)
                 ctx.res.extra.setdefault("modes_with_output", set()).add(mode if nonempty else mode + ":EMPTY")
                 ctx.res.distinct.add((mode, len(runs[0][1]) // 200, list(codes)[0]))
                 if len(outs) > 1:
@@ -401,7 +409,7 @@ def main(tier, seed):
     core.build(need_cli=True)
     res = core.run_shards(shard, seed, tier, "C05")
     mo = res.extra.get("modes_with_output", set())
-    floor = {"cases": (res.cases, 500), "modes_with_nonempty_output": (len([m for m in mo if not m.endswith(":EMPTY")]), 29),
+    floor = {"cases": (res.cases, 500), "modes_with_nonempty_output": (len([m for m in mo if not m.endswith(":EMPTY")]), 31),
              "in_process_repetitions": (res.counts["in_process_repetitions"], 200),
              "earlier_file_units_compared": (res.counts["earlier_file_units_compared"], 150)}
     return core.finish("C05", tier, seed, res, t0,
